@@ -61,7 +61,7 @@ var propSets = map[string][]string{
 	"C17": {"r3", "more", "ingest", "c17", "c12", "setters"},
 	"C18": {"prim", "more", "c18", "ingest", "r3"},
 	"C19": {"r3", "more", "c19f", "timer", "chan", "loops", "ingest"},
-	"C20": {"r3", "more", "c20", "ingest"},
+	"C20": {"r3", "more", "c20", "ingest", "prim"},
 }
 
 // minimum number of obligation instances per rule confirmed by reading (vacuity guard)
